@@ -5,7 +5,7 @@ asked for, and `EncryptPayload` / `DecryptDataRowRecord` keep the typing invaria
 an encrypt then satisfies `okEnc`.
 -/
 set_option linter.unusedVariables false
-namespace AsherahVerif.Env
+namespace AsherahVerif.Env.Res
 
 section
 variable (ρ0 : RoleMap) (part : Nat) (Γ : List Fact)
@@ -432,4 +432,4 @@ theorem decryptDataRowRecord_ti (x : Ctx) (hx : x.part = part) (d : Drr) (b : Bo
           (((keyRelease_ti ρ0 part _ ik).toSpec).weaken (fun _ h => h) (fun _ _ h => h.drop) (fun _ h => h.drop))
 
 end
-end AsherahVerif.Env
+end AsherahVerif.Env.Res
